@@ -168,6 +168,7 @@ type c16Scn struct {
 
 	// collected at the end
 	finalSink io.Writer
+	sinkIdx   int // index of the mock that receives what is written to finalSink (-2 nil, -1 none of them)
 	active    tty.Device
 	devs      managedDevices
 	ringRest  []byte // real execution without a link: what the ring still held at the end
@@ -498,6 +499,25 @@ func c16hExec(c c16hCase, ref bool) (s *c16Scn, fail *vlib.Failure, harness stri
 		s.emit(tk, nil)
 	}
 	s.finalSink = kfmt.GetOutputSink()
+	s.sinkIdx = c16IdxOf(s.finalSink)
+	if s.sinkIdx == -1 && s.finalSink != nil && s.finalSink != s.initial {
+		// the sink is none of the stand-ins itself: then whoever receives what is written to it (a
+		// forwarding writer in front of the terminal is as good as the terminal). One carriage
+		// return - it changes no cell - shows where output ends up; it is taken out again.
+		before := make([]int, len(s.ttys))
+		for i, t := range s.ttys {
+			if t != nil {
+				before[i] = len(t.stream)
+			}
+		}
+		s.finalSink.Write([]byte{'\r'})
+		for i, t := range s.ttys {
+			if t != nil && len(t.stream) == before[i]+1 && t.stream[before[i]] == '\r' {
+				t.stream = t.stream[:before[i]]
+				s.sinkIdx = i
+			}
+		}
+	}
 	s.active = ActiveTTY()
 	s.devs = devices
 	if !ref && s.finalSink == s.initial {
@@ -685,7 +705,7 @@ func c16hBody(c c16hCase, info *c16hInfo) *vlib.Failure {
 
 	// ---- a failed driver never becomes active ----------------------------------
 	activeIdx := c16IdxOf(s.active)
-	sinkIdx := c16IdxOf(s.finalSink)
+	sinkIdx := s.sinkIdx
 	for i, b := range s.base {
 		if b.initCalls == 0 || b.initOK {
 			continue
@@ -755,7 +775,7 @@ func c16hBody(c c16hCase, info *c16hInfo) *vlib.Failure {
 			return vlib.Failf("%s is linked to console #%d but its state is %d, not active", t.describe(), firstCons, t.State())
 		}
 		if sinkIdx != firstTTY {
-			return vlib.Failf("%s is linked to console #%d but kfmt.GetOutputSink() is not that terminal (it is %s)", t.describe(), firstCons, c16SinkName(s, sinkIdx))
+			return vlib.Failf("%s is linked to console #%d but what is written to kfmt.GetOutputSink() does not reach that terminal (the sink is %s)", t.describe(), firstCons, c16SinkName(s, sinkIdx))
 		}
 	} else if s.finalSink != s.initial {
 		return vlib.Failf("no console+terminal pair initialised (first console %d, first terminal %d) but the output sink was replaced by %s", firstCons, firstTTY, c16SinkName(s, sinkIdx))
@@ -784,7 +804,7 @@ func c16hBody(c c16hCase, info *c16hInfo) *vlib.Failure {
 	// ---- the complete log (reference execution) ---------------------------------
 	lref := ref.refRec.b
 	var sref []byte
-	if ri := c16IdxOf(ref.finalSink); ri >= 0 && ref.ttys[ri] != nil {
+	if ri := ref.sinkIdx; ri >= 0 && ref.ttys[ri] != nil {
 		sref = ref.ttys[ri].stream
 	}
 	full := append(append([]byte(nil), lref...), sref...)
